@@ -267,6 +267,13 @@ pub open spec fn spec_some(s: Seq<Status>) -> Status {
     if has(s, Status::PASS) { Status::PASS } else if has(s, Status::FAIL) { Status::FAIL } else { Status::SKIP }
 }
 
+// "a block is evaluated once per selected value (an unresolved value counts as FAIL). all: FAIL iff it failed for some
+// value, PASS iff none failed and it passed for one, else SKIP; some: PASS iff it passed for some value, FAIL iff none
+// passed and one failed, else SKIP"
+pub open spec fn spec_block(match_all: bool, vs: Seq<Status>) -> Status {
+    if match_all { spec_all(vs) } else { spec_some(vs) }
+}
+
 pub open spec fn count(s: Seq<Status>, x: Status) -> nat
     decreases s.len()
 {
@@ -397,4 +404,4 @@ pub open spec fn clause_agg(all: bool, r: EvalRes) -> Status {
 }
 } // mod model
 pub use model::*;
-broadcast use model::group_stack;
+broadcast use model::group_stack/*EXTRA_BROADCAST*/;
